@@ -14,6 +14,15 @@ func (rn *runner) sweepReq(epName, api, user, plan, method, cid, suffix string, 
 
 // modelledReq sends one request of known shape through judge with its `h` line for the model
 func (rn *runner) modelledReq(epName, api, user, plan, method, cid, suffix string, body *N, mp bool, tag string, undo bool) int {
+	return rn.modelledReqX(epName, api, user, plan, user, plan, method, cid, suffix, body, mp, tag, undo)
+}
+
+// modelledReqH: the context is that of (user, plan), the headers sent are (hUser, hPlan)
+func (rn *runner) modelledReqH(epName, api, user, plan, hUser, hPlan, method, cid, suffix string, body *N, mp bool, tag string) int {
+	return rn.modelledReqX(epName, api, user, plan, hUser, hPlan, method, cid, suffix, body, mp, tag, false)
+}
+
+func (rn *runner) modelledReqX(epName, api, user, plan, hUser, hPlan, method, cid, suffix string, body *N, mp bool, tag string, undo bool) int {
 	if rn.abort {
 		return -1
 	}
@@ -30,7 +39,10 @@ func (rn *runner) modelledReq(epName, api, user, plan, method, cid, suffix strin
 			ctype, raw = "application/msgpack", body.Msgpack()
 		}
 	}
-	req := request{user, plan, method, path, ctype, raw}
+	req := request{hUser, hPlan, method, path, ctype, raw}
+	if headersValid(hUser, hPlan) {
+		user, plan = hUser, hPlan // the headers pass: the request is that user's, under that plan
+	}
 	key := user + "/" + cid
 	ci := rn.w.cols[user][cid]
 	tokens := "n"
@@ -51,7 +63,7 @@ func (rn *runner) modelledReq(epName, api, user, plan, method, cid, suffix strin
 		}
 	}
 	hline := "h " + epName + " plan=" + itoa(pn[0]) + "," + itoa(pn[1]) + "," + itoa(pn[2]) + " ncols=" + itoa(len(rn.w.cols[user])) + " exists=" + itoa(exists) +
-		" cid=" + itoa(len(cid)) + " found=" + itoa(found) + " count=" + itoa(int(count)) + " ; " + schemaT + " ; " + tokens
+		" cid=" + itoa(len(cid)) + " found=" + itoa(found) + " count=" + itoa(int(count)) + hdrArgs(hUser, hPlan) + " ; " + schemaT + " ; " + tokens
 	st := rn.judge(req, epName, ctype, tag, "", key, hline)
 	if undo && st >= 200 && st < 300 && method != "GET" && !strings.HasSuffix(suffix, "/search") {
 		// undo: the sweep must not drift the state
@@ -128,6 +140,15 @@ func (rn *runner) boundarySweep() {
 		for _, v := range ints(1, 4096) {
 			rn.sweepReq("v1Create", "v1", "dave", "BASIC", "POST", "", "", Obj("id", Str("sweepv1"), "vectorSize", Int(v), "distanceMetric", Str("dot")), mp, "v1create.vectorSize")
 		}
+	}
+	// ---- header middleware: user ids that are not a single path segment, missing headers, unknown plan
+	for _, u := range []string{"", ".", "..", "a/b", "a\\b", "/", "alice/..", "...", "a.b", "alice"} {
+		rn.modelledReqH("v2List", "v2", "alice", "BASIC", u, "BASIC", "GET", "", "", nil, false, "boundary:header.user")
+		rn.modelledReqH("v2Get", "v2", "alice", "BASIC", u, "BASIC", "GET", "base1", "", nil, false, "boundary:header.user")
+		rn.modelledReqH("v1Search", "v1", "alice", "BASIC", u, "BASIC", "POST", "v1col", "/points/search", Obj("vector", g.vec(4), "limit", Int(3)), true, "boundary:header.user")
+	}
+	for _, pl := range []string{"", "NOSUCHPLAN", "basic", "BASIC"} {
+		rn.modelledReqH("v2Get", "v2", "alice", "BASIC", "alice", pl, "GET", "base1", "", nil, false, "boundary:header.plan")
 	}
 	// ---- collection id in the path
 	for _, l := range []int{2, 3, 24, 25} {
